@@ -13,7 +13,9 @@ using namespace ref;
 namespace eng {
 namespace {
 
-enum SigKind { S_NOCAL, S_AUTH_VALID, S_AUTH_EXPIRED, S_AUTH_FUTURE, S_AUTH_BADSIG, S_AUTH_UNKNOWN_CERT, S_PUB_IN_FILE, S_PUB_NOT_IN_FILE, S_INCONSISTENT, S_CAL_ONLY, S_AUTH_EDGE_EXPIRING, S_AUTH_EDGE_STARTING, S__COUNT };
+enum SigKind { S_NOCAL, S_AUTH_VALID, S_AUTH_EXPIRED, S_AUTH_FUTURE, S_AUTH_BADSIG, S_AUTH_UNKNOWN_CERT, S_PUB_IN_FILE, S_PUB_NOT_IN_FILE, S_INCONSISTENT, S_CAL_ONLY, S_AUTH_EDGE_EXPIRING, S_AUTH_EDGE_STARTING, S_AUTH_EC_GARBAGE, S__COUNT };
+// S_AUTH_EC_GARBAGE: the authentication record names a listed, valid certificate with an EC key and carries a signature value that is
+// not even an encoded ECDSA signature (the verification primitive reports an error, not a mismatch): never acceptable
 // the fixture certificate auth_edge is valid from EDGE_T0 to EDGE_T1: one signature is aggregated just before it expires and published just
 // after (valid at the aggregation time: acceptable), one is aggregated just before it becomes valid and published just after (KEY-03)
 static const uint64_t EDGE_T0 = 1599600000, EDGE_T1 = 1599650000;
@@ -46,7 +48,7 @@ struct TrustSim {
 		return cache[kind] = pubfile_build(kind);
 	}
 	std::string pubfile_build(int kind) {
-		std::vector<const Pki *> certs = {&pki("auth_valid"), &pki("auth_expired"), &pki("auth_future"), &pki("auth_edge")};
+		std::vector<const Pki *> certs = {&pki("auth_valid"), &pki("auth_expired"), &pki("auth_future"), &pki("auth_edge"), &pki("auth_ec")};
 		std::vector<PubEntry> pubs = {{Pold, bw.world.cal.root(Pold)}, {P1, bw.world.cal.root(P1)}, {P2, bw.world.cal.root(P2)}};
 		uint64_t created = 1599999000;
 		switch (kind) {
@@ -59,6 +61,10 @@ struct TrustSim {
 		}
 	}
 
+	static Tlv auth_rec_garbage(uint64_t p, const std::string &root, const Pki &k) {
+		Tlv pd = Tlv::nest(0x10, {Tlv::u64(0x02, p), Tlv::raw(0x04, root)});
+		return Tlv::nest(0x0805, {pd, Tlv::nest(0x0b, {Tlv::str(0x01, "1.2.840.113549.1.1.11"), Tlv::raw(0x02, std::string(70, 'Z')), Tlv::raw(0x03, k.cert_id)})});
+	}
 	static Tlv auth_rec(uint64_t p, const std::string &root, const Pki &k, bool badsig, bool unknown_cert) {
 		Tlv pd = Tlv::nest(0x10, {Tlv::u64(0x02, p), Tlv::raw(0x04, root)});
 		static std::map<std::string, std::string> cache;
@@ -125,6 +131,7 @@ struct TrustSim {
 				if (k == S_AUTH_BADSIG) top.add(auth_rec(p, root, pki("auth_valid"), true, false));
 				if (k == S_AUTH_UNKNOWN_CERT) top.add(auth_rec(p, root, pki("auth_valid"), false, true));
 				if (k == S_AUTH_EDGE_EXPIRING || k == S_AUTH_EDGE_STARTING) top.add(auth_rec(p, root, pki("auth_edge"), false, false));
+				if (k == S_AUTH_EC_GARBAGE) top.add(auth_rec_garbage(p, root, pki("auth_ec")));
 			}
 			s.bytes = top.enc();
 			int res = KSI_Signature_parseWithPolicy(ctx, (const unsigned char *)s.bytes.data(), s.bytes.size(), KSI_VERIFICATION_POLICY_EMPTY, NULL, &s.sig);
@@ -257,7 +264,7 @@ struct TrustSim {
 			bool fam_ok = policy == 0 ? (fam == 4 || fam == 2 || fam == 1) : policy == 1 || policy == 2 ? (fam == 3 || fam == 2 || fam == 1) : policy == 3 ? (fam == 5 || fam == 2 || fam == 1) : true;
 			if (!fam_ok) K.fail("C04", "fail-with-undocumented-code", "policy-" + std::to_string(policy), "FAIL under policy %d with error code 0x%x outside the documented family", policy, ec);
 			// an unavailable / failing extender or publications file is inconclusive, never a contradiction
-			bool planted_contradiction = !genuine || upk == 3 || s.kind == S_AUTH_EXPIRED || s.kind == S_AUTH_FUTURE || s.kind == S_AUTH_EDGE_STARTING || s.kind == S_AUTH_BADSIG || fk == F_OTHER_HASHES ||
+			bool planted_contradiction = !genuine || upk == 3 || s.kind == S_AUTH_EXPIRED || s.kind == S_AUTH_FUTURE || s.kind == S_AUTH_EDGE_STARTING || s.kind == S_AUTH_BADSIG || s.kind == S_AUTH_EC_GARBAGE || fk == F_OTHER_HASHES ||
 				(ext_any && !bw.fault_fired && (e.behav == B_OTHER_INPUT || e.behav == B_ALTERED_RIGHT_LINK || e.behav == B_WRONG_AGG_TIME || e.behav == B_WRONG_PUB_TIME || e.behav == B_BAD_SHAPE || e.behav == B_EXTRA_LINKS || e.behav == B_NO_AGG_TIME));
 			if (!planted_contradiction && fam != 2 && fam != 1) K.fail("C04", "fail-without-contradicting-anchor", "policy-" + std::to_string(policy) + "/0x" + std::to_string(ec), "FAIL (0x%x) under policy %d although no anchor contradicts the signature (extender behaviour %s, fault %d, file kind %d)", ec, policy, behav_name(e.behav), e.fault, fk);
 		}
@@ -265,7 +272,7 @@ struct TrustSim {
 		if (genuine && !bw.fault_fired && file_trusted && res == KSI_OK) {
 			if (policy == 0 && (s.kind == S_AUTH_EXPIRED || s.kind == S_AUTH_FUTURE || s.kind == S_AUTH_EDGE_STARTING) && !(rc == KSI_VER_RES_FAIL && ec == KSI_VER_ERR_KEY_3))
 				K.fail("C04", "contradiction-not-reported", "KEY-03", "key-based verification of a signature whose certificate is not valid at the aggregation time gave rc=%d ec=0x%x instead of FAIL KEY-03", rc, ec);
-			if (policy == 0 && s.kind == S_AUTH_BADSIG && !(rc == KSI_VER_RES_FAIL && ec == KSI_VER_ERR_KEY_2))
+			if (policy == 0 && (s.kind == S_AUTH_BADSIG || s.kind == S_AUTH_EC_GARBAGE) && !(rc == KSI_VER_RES_FAIL && ec == KSI_VER_ERR_KEY_2))
 				K.fail("C04", "contradiction-not-reported", "KEY-02", "key-based verification of a signature with an altered PKI signature gave rc=%d ec=0x%x instead of FAIL KEY-02", rc, ec);
 			if (policy == 2 && upk == 3 && ext_allowed && ext_honest && has_pubrec == false && s.kind != S_NOCAL && rc != KSI_VER_RES_FAIL)
 				K.fail("C04", "contradiction-not-reported", "PUB", "user-publication verification against a contradicting publication (honest extender) gave rc=%d ec=0x%x instead of FAIL", rc, ec);
